@@ -45,14 +45,25 @@ TStart == /\ IsEvent("start")
              ELSE Check(ev.res = "err", "C17", "write_start", ev.res) /\ Keep
           /\ UNCHANGED <<run, img, aux>>
 
+\* After a call during which the STREAM failed (the harness made it fail; the call must report an
+\* I/O error -- C10), what C01/C02/C14 say about the output no longer applies: they assume that
+\* every call succeeded.  What remains is C17: no later call panics.  The run is in phase "faulted".
+AfterFault(name) == Check(ev.res # "panic", "C17", "a call after a failed stream call panics", <<name, ev.msg>>) /\ Keep
+
 TAdd == /\ IsEvent("add")
-        /\ IF ev.res = "ok" /\ phase = "open" THEN AddTrack(ev.conf)
+        /\ IF phase = "faulted" THEN AfterFault("add_track")
+           ELSE IF ev.res = "ok" /\ phase = "open" THEN AddTrack(ev.conf)
            ELSE IF ev.res = "err" THEN RejectAdd
            ELSE Fail("C17", "add_track", ev.res) /\ Keep
         /\ UNCHANGED <<run, img, aux>>
 
 TWrite == /\ IsEvent("write")
-          /\ IF ev.res = "ok" THEN
+          /\ IF ev.fired THEN
+                /\ Check(ev.res = "ioerr", "C10", "a failed stream call did not surface as an I/O error of write_sample", <<ev.fault, ev.res>>)
+                /\ Check(ev.res # "panic", "C17", "write_sample", ev.res)
+                /\ phase' = "faulted" /\ UNCHANGED <<cfg, tracks, file>>
+             ELSE IF phase = "faulted" THEN AfterFault("write_sample")
+             ELSE IF ev.res = "ok" THEN
                 IF phase = "open" /\ ev.t \in 1..Len(tracks) THEN WriteSample(ev.t, ev.s)
                 ELSE Fail("C01", "write_sample accepted for a track that does not exist", ev.t) /\ Keep
              ELSE IF ev.res = "err" THEN RejectWrite
@@ -70,7 +81,8 @@ AuxOf(f) == [t \in 1..Len(tracks) |->
 
 \* the heavy values are bound with \E over singleton sets: TLC then computes each exactly once
 TEnd == /\ IsEvent("end")
-        /\ IF ev.res = "ok" THEN
+        /\ IF ev.faulted THEN AfterFault("write_end") /\ UNCHANGED <<img, aux>>
+           ELSE IF ev.res = "ok" THEN
              \E f \in {DecodeMovie(ev.img)} :
              \E wf \in {WellFormedFailures(f)} :
              \E df \in {DecodeFailures(f, tracks, LAMBDA off, len, b : PayloadOK(ev.img, off, len, b))} :
